@@ -185,6 +185,11 @@ def run_probes(prop):
         seen.add(h)
         path = write_replay(prop, "probe|" + h, text)
         jobs.append((c.name, path, getattr(c, "static_witness", None) or ""))
+    for (pname, text) in getattr(mod, "PROBES", []):
+        h = hashlib.sha256(text.encode()).hexdigest()
+        if h not in seen:
+            seen.add(h)
+            jobs.append((pname, write_replay(prop, "probe|" + h, text), pname))
     out = []
     if not jobs:
         return out
